@@ -134,7 +134,7 @@ func (x *Exec) step(fr *Frame, ins ssa.Instruction) {
 			if xv.Len.IsConst() {
 				n = int(xv.Len.Val)
 			} else if xv.P.Obj != nil {
-				n = len(xv.P.Obj.Slots)
+				n = xv.P.Obj.N
 			}
 			x.set(fr, ins, x.ptrAdd(xv.P, idx, x.e.lay.slots(st.Elem()), n))
 		default:
@@ -269,7 +269,7 @@ func (x *Exec) candidates(p Pointer, span int) ([]*smt.Term, []int) {
 		for ci, c := range conds {
 			for i := 0; i < n; i++ {
 				off := offs[ci] + i*s.Stride
-				if off < 0 || off+span > len(p.Obj.Slots) {
+				if off < 0 || off+span > p.Obj.N {
 					continue
 				}
 				nc = append(nc, C.BAnd(c, C.Eq(s.Idx, x.e.intTerm(int64(i)))))
@@ -314,8 +314,8 @@ func (x *Exec) load(p Pointer, t types.Type) Value {
 	x.nilCheck(p, "nil pointer dereference")
 	n := x.e.lay.slots(t)
 	if len(p.Sym) == 0 {
-		if p.Off < 0 || p.Off+n > len(p.Obj.Slots) {
-			efail("internal: load outside object %s off %d n %d size %d", p.Obj.Name, p.Off, n, len(p.Obj.Slots))
+		if p.Off < 0 || p.Off+n > p.Obj.N {
+			efail("internal: load outside object %s off %d n %d size %d", p.Obj.Name, p.Off, n, p.Obj.N)
 		}
 		if !isAgg(t) {
 			return x.read(p.Obj, p.Off)
@@ -331,7 +331,7 @@ func (x *Exec) load(p Pointer, t types.Type) Value {
 		// fast path: table lookup when all candidate cells are constants
 		s := p.Sym[0]
 		cnt := s.N
-		if lim := (len(p.Obj.Slots) - p.Off + s.Stride - 1) / s.Stride; cnt > lim {
+		if lim := (p.Obj.N - p.Off + s.Stride - 1) / s.Stride; cnt > lim {
 			cnt = lim
 		}
 		vals := make([]*smt.Term, 0, cnt)
@@ -399,8 +399,8 @@ func (x *Exec) store(p Pointer, v Value, t types.Type) {
 		efail("internal: store size mismatch %d vs %d for %s", len(vals), n, t)
 	}
 	if len(p.Sym) == 0 {
-		if p.Off < 0 || p.Off+n > len(p.Obj.Slots) {
-			efail("internal: store outside object %s off %d n %d size %d", p.Obj.Name, p.Off, n, len(p.Obj.Slots))
+		if p.Off < 0 || p.Off+n > p.Obj.N {
+			efail("internal: store outside object %s off %d n %d size %d", p.Obj.Name, p.Off, n, p.Obj.N)
 		}
 		for i := 0; i < n; i++ {
 			x.write(p.Obj, p.Off+i, vals[i])
@@ -801,7 +801,7 @@ func (x *Exec) convert(v Value, from, to types.Type) Value {
 			lv := lay.leavesOf(ts.Elem())
 			o := x.e.newObject(lv, len(s.B), "[]byte(string)")
 			for i, b := range s.B {
-				o.Slots[i] = b
+				o.rawSet(i, b)
 			}
 			n := x.e.intTerm(int64(len(s.B)))
 			return Slice{P: Pointer{Obj: o}, Len: n, Cap: n}
